@@ -265,8 +265,14 @@ def main():
             break
         if not e["top"]:
             samples.append(dict(obligation=name, clause=e["detail"], status=e["status"], paths=e["paths"]))
+    # contracts whose name says "bounded" fix a size (number of doers, connections, stored entries ...): their obligations are
+    # discharged for all symbolic CONTENT of that size only -- reported separately and not counted as proved for all inputs
+    is_bounded = lambda n: "bounded" in n.split("]/")[0].split("[", 1)[-1].lower() or "<=" in n.split("]/")[0].split("[", 1)[-1] if "[" in n else False
+    nbsym = sum(1 for n, e in obl.items() if e["status"] == "proved" and is_bounded(n))
     cov = dict(
         obligations=nobl, discharged=ndis, undecided=nund,
+        discharged_unbounded=ndis - nbsym, discharged_in_size_bounded_contracts=nbsym,
+        size_bounded_contracts=sorted({n.split("]/")[0] + "]" for n in obl if is_bounded(n)}),
         checker_cmd="./check.py %s --tier %s  (pyvc: VCs from the AST of %s, discharged by z3 %s; cvc5 on z3-unknown)" % (pid, tier, src_root, _z3v()),
         trusted_base=cfg.get("trusted_base", []) + PROPS.COMMON_TRUSTED,
         samples=samples,
